@@ -15,7 +15,7 @@ EXPLANATIONS = {
     "C07": "Decided: every slot re-initialisation takes its id from old_id.next_generation() (overflow leaks the slot); memos of "
     "the old identity are cleared before the slot is offered for reuse; delete panics on read- or write-locked ids; update touches "
     "a struct only if it was not yet updated this revision; generation is part of Id equality/hash and of stored edges; interned "
-    "dependents compare generations (shared C01.6). Not decided: absence of aliasing in a concrete history.",
+    "dependents compare generations (shared C01.6). Interned slot recycling: new fields assembled under the new id, stale key-map entry removed under the OLD fields' hash and re-inserted under the new one, metadata.id := new id, the old memos cleared under the OLD id on every path after the fields were replaced, the returned id is the new generation. Not decided: absence of aliasing in a concrete history.",
 }
 
 TS = r"^tracked_struct::IngredientImpl::<C>::"
